@@ -21,6 +21,7 @@ NOT_ASSERTED = ['rejection of raw-form typos (the raw form has no checksum)', 'm
 
 STD = 'ABCDEFGHIJKLMNOPQRSTUVWXYZabcdefghijklmnopqrstuvwxyz0123456789+/'
 URL = 'ABCDEFGHIJKLMNOPQRSTUVWXYZabcdefghijklmnopqrstuvwxyz0123456789-_'
+RULE += ' Sixth session: equality over all 256 workchains x neighbouring workchains x 3 accounts x 6 construction routes (tuple over one shared bytes object, fresh copy, raw text, friendly text, copy constructor, copy with reassigned workchain): ==, reversed ==, !=, hash, set membership agree with (workchain, account) equality.'
 
 
 def BOUNDS(tier):
